@@ -12,6 +12,7 @@ import json
 
 from sim import world
 from sim.engines.lru import RefLRU
+from sim.engines.render import normalise
 
 SIZES = [0, 1, 2, 3, 128, None]
 
@@ -21,7 +22,11 @@ def default_params(tier):
 
 
 def source(i):
-    return "S%d:{{ v }}{%% if v %%}+{%% endif %%}{%% for x in l %%}{{ x }}{%% endfor %%}" % i
+    # every source {% load %}s one of two libraries that define the filter `label` differently, and uses it both in the
+    # template itself and inside a nested template string given to one of the LIBRARY's tags (compiled by the library's
+    # own expression parser): what a cache remembers about one source must not leak into another (seeded change C18f-3)
+    return ('{%% load simlib_%s %%}S%d:{{ v }}{%% if v %%}+{%% endif %%}{%% for x in l %%}{{ x }}{%% endfor %%}{{ v|label }}'
+            '{%% component "tcleaf" t="{{ v|label }}" / %%}' % ("ab"[i % 2], i))
 
 
 BAD = "{% if %}broken{% endfor %}"
@@ -61,6 +66,13 @@ def run(ch, params, decoded=False):
     engine = engines["django"].engine
     w = world.World(id_seed=1)
     world.install(w)
+    from django_components import registry as _registry
+
+    # (the leaf hands over a ready-made Template object, so that it does not itself occupy an entry of the cache under test)
+    leaf_tpl = Template("({{ t }})")
+    _registry.register("tcleaf", type("TCLeaf", (Component,), {"get_template": (lambda self, context: leaf_tpl),
+                                                               "__module__": "sim.generated",
+                                                               "get_context_data": (lambda self, t=None: {"t": t})}))
     violations = []
     stats = {"ops": n_ops * len(SIZES)}
     outputs_by_size = {}
@@ -87,8 +99,8 @@ def run(ch, params, decoded=False):
                     elif not resident and any(t is tpl for t in last.values()):
                         problem = ("IDENTITY", f"key {key} is not resident per the reference LRU but an old Template object came back")
                     last[key] = tpl
-                    out = tpl.render(Context({"v": si, "l": ["a", "b"]}))
-                    fresh = (MyTemplate if cv else Template)(source(si)).render(Context({"v": si, "l": ["a", "b"]}))
+                    out = normalise(tpl.render(Context({"v": si, "l": ["a", "b"]})))
+                    fresh = normalise((MyTemplate if cv else Template)(source(si)).render(Context({"v": si, "l": ["a", "b"]})))
                     if out != fresh and not problem:
                         problem = ("OUTPUT", f"cached render {out!r} != fresh compile {fresh!r}")
                     outs.append(out)
@@ -103,8 +115,8 @@ def run(ch, params, decoded=False):
                     if not resident:
                         ref.set(key, 1)
                     del used[:]
-                    out = comp_classes[si].render(kwargs={"v": si})
-                    fresh = Template(source(si)).render(Context({"v": si, "l": ["a", "b"]}))
+                    out = normalise(str(comp_classes[si].render(kwargs={"v": si})))
+                    fresh = normalise(Template(source(si)).render(Context({"v": si, "l": ["a", "b"]})))
                     if str(out) != fresh:
                         problem = ("OUTPUT", f"component render {str(out)!r} != fresh compile {fresh!r}")
                     elif len(used) != 1:
